@@ -646,7 +646,10 @@ func (t *UpdateTran) update(th *core.Thread, table string, oldoff uint64, newrec
 					panic("update & update on same record")
 				}
 			} else {
-				ix.Delete(oldkeys[i], oldoff)
+				prevoff := ix.Delete(oldkeys[i], oldoff)
+				if prevoff != 0 && prevoff != oldoff {
+					panic("update & update on same record")
+				}
 				ix.Insert(newkeys[i], newoff)
 			}
 		}
